@@ -22,7 +22,8 @@ RULE = ('timed histories of 3-9 events (express, Data, Nack, caller cancel, shut
         '/a,/a/b,/a/b/c,/a/d (same name twice, CanBePrefix, implicit digest, digest placeholder), event times on a grid that '
         'contains each deadline -1/0/+1 ms, validator latency 0..>lifetime and every verdict, both front-ends; followed by a '
         'probe Interest on every name; distinct = the observed interleaving signature (event kinds + completion order); '
-        'non-trivial = at least two Interests pending at the same time')
+        'non-trivial = at least two Interests pending at the same time'
+        '; a share of the Data is delivered inside link-layer envelopes; histories in which one InterestParam object is reused and modified between expresses')
 
 NAMES = {
     'a': [rc.comp(8, b'a')],
